@@ -304,5 +304,5 @@ INSTANCE_TIMEOUT_S = {"quick": 900, "thorough": 3000}
 LEVEL_TEXT = ("Bounded model checking of the real aggregation kernel _update_contingency_results over symbolic per-case results: for every "
               "enumerated case list and order the solver shows max/min are the true extremes over the cases in which the element is in "
               "service, cause_index names a case of the list that attains the maximum, causes_overloading is exact and N-0 values pass through.")
-LEVEL_NOTE = ("Trusted: each N-1 power flow (contract stub), numpy's float fmax/fmin semantics re-implemented NaN-faithfully in the shim "
+LEVEL_NOTE = ("Trusted: each N-1 power flow (contract stub; the run_contingency_* instances run the real run_contingency loop around it), numpy's float fmax/fmin semantics re-implemented NaN-faithfully in the shim "
               "(validated against the real code on every run), z3. Bounds: 3 lines, 1 bus, <= 3 cases.")
